@@ -25,12 +25,13 @@ from core import coqrun
 ID = 'C08'
 PROPERTY_FILE = 'C08/Property.v'
 PROPERTY_FILES = ['C08/Property.v', 'C08/Examples.v', 'C08/PropertyCore.v', 'C08/SnapshotProperty.v', 'C08/VersionProperty.v',
-                  'C08/FloatProperty.v']
+                  'C08/HeaderProperty.v', 'C08/FloatProperty.v']
 # hand-written obligations that do not depend on Gen_Layout.v: still checked when the translator fails closed
-PROPERTY_FILES_NO_GEN = ['C08/PropertyCore.v', 'C08/SnapshotProperty.v', 'C08/VersionProperty.v', 'C08/FloatProperty.v']
+PROPERTY_FILES_NO_GEN = ['C08/PropertyCore.v', 'C08/SnapshotProperty.v', 'C08/VersionProperty.v', 'C08/HeaderProperty.v',
+                         'C08/FloatProperty.v']
 LEVEL = 'proof'
 # the integer/byte-level theorems are closed; only the real-number resolution theorems (Flocq) use the reals' axioms
-ALLOWED_AXIOMS = {'C08/Property.v': (), 'C08/Examples.v': (), 'C08/PropertyCore.v': (), 'C08/SnapshotProperty.v': (), 'C08/VersionProperty.v': (),
+ALLOWED_AXIOMS = {'C08/Property.v': (), 'C08/Examples.v': (), 'C08/PropertyCore.v': (), 'C08/SnapshotProperty.v': (), 'C08/VersionProperty.v': (), 'C08/HeaderProperty.v': (),
                   'C08/FloatProperty.v': coqrun.REAL_AXIOMS}
 TRUSTED_BASE = [
     'coq/C08/FwLayout.v: hand-written transcription of the firmware packed structs, sign conventions and type-byte '
@@ -972,6 +973,156 @@ def _show_vals(vs):
     return out
 
 
+
+# ====================================================================================== one CRTPPacket object, re-addressed
+def hdr_f(port, chan):
+    return ((port & 15) << 4) | 12 | (chan & 3)
+
+
+def pk_run(hist):
+    """Mutation history on ONE CRTPPacket.  ops: ['ctor', h] ['new'] ['set_header', p, c] ['port', p] ['channel', c]
+    ['data', n] ['read', how] with how in attr (pk.header, what the drivers read) | get (get_header()) | send (through
+    Crazyflie.send_packet to the reference-keeping link, header read at transmission).
+    -> first violation of "header = f(current port, current channel), port/channel = the current values" or None"""
+    from cflib.crtp.crtpstack import CRTPPacket
+    pk = None
+    cur = None
+    for i, op in enumerate(hist):
+        k = op[0]
+        if k == 'ctor':
+            pk = CRTPPacket(op[1])
+            cur = [(op[1] & 0xF0) >> 4, op[1] & 3]
+        elif k == 'new':
+            pk = CRTPPacket()
+            cur = [0, 0]
+        elif k == 'set_header':
+            pk.set_header(op[1], op[2])
+            cur = [op[1], op[2]]
+        elif k == 'port':
+            pk.port = op[1]
+            cur[0] = op[1]
+        elif k == 'channel':
+            pk.channel = op[1]
+            cur[1] = op[1]
+        elif k == 'data':
+            pk.data = bytes(range(op[1]))
+        elif k == 'read':
+            if op[1] == 'attr':
+                h = pk.header
+            elif op[1] == 'get':
+                h = pk.get_header()
+            else:
+                cf, link, _ = _rig()
+                link.discard()
+                cf.send_packet(pk)
+                link.transmit(0)
+                h = link.new[-1]['tx'][0] if link.new and link.new[-1]['tx'] else None
+                link.discard()
+            want = hdr_f(cur[0], cur[1])
+            if h != want or pk.port != cur[0] or pk.channel != cur[1]:
+                return {'step': i, 'reader': op[1], 'expected': {'header': want, 'port': cur[0], 'channel': cur[1]},
+                        'observed': {'header': h, 'port': pk.port, 'channel': pk.channel}}
+    return None
+
+
+def pk_create_ops(api, p, c):
+    if api == 'ctor':
+        return [['ctor', hdr_f(p, c)]]
+    if api == 'set_header':
+        return [['new'], ['set_header', p, c]]
+    return [['new'], ['port', p], ['channel', c]]
+
+
+def pk_mutate_ops(api, p1, c1, p2, c2):
+    """-> ops re-addressing a packet at (p1, c1) towards (p2, c2) through one API"""
+    if api == 'set_header':
+        return [['set_header', p2, c2]]
+    if api == 'port':
+        return [['port', p2]]
+    if api == 'channel':
+        return [['channel', c2]]
+    if api == 'props':
+        return [['port', p2], ['channel', c2]]
+    return [['channel', c2], ['port', p2]]
+
+
+def pk_fail(hist, f):
+    return {'class': 'header_not_function_of_current_port_channel',
+            'case': {'cmd': 'header', 'pk_history': hist, 'args_readable': repr(hist)},
+            'expected': f['expected'], 'observed': f['observed'],
+            'detail': 'after step %d (%r) of the history on one CRTPPacket, read through %s' % (f['step'], hist[f['step'] - 1] if f['step'] else None, f['reader'])}
+
+
+def pk_oracle(rng, n_random):
+    """all 64 x 64 transitions (port, channel) -> (port2, channel2) for every creating API x intermediate read x
+    re-addressing API, then random histories of 2-4 rounds"""
+    fails = []
+    n = 0
+    pcs = [(p, c) for p in range(16) for c in range(4)]
+    k = 0
+    for (p1, c1) in pcs:
+        for (p2, c2) in pcs:
+            for ca in ('ctor', 'set_header', 'props'):
+                for mid in ('attr', 'get', None):
+                    for ma in ('set_header', 'port', 'channel', 'props', 'props_rev'):
+                        k += 1
+                        hist = pk_create_ops(ca, p1, c1) + ([['read', mid]] if mid else []) + pk_mutate_ops(ma, p1, c1, p2, c2) \
+                            + ([['read', 'attr'], ['read', 'get']] if k % 2 else [['read', 'get'], ['read', 'attr']])
+                        n += 1
+                        f = pk_run(hist)
+                        if f and len(fails) < 4:
+                            fails.append(pk_fail(hist, f))
+    readers = ['attr', 'get', 'send']
+    for _ in range(n_random):
+        p, c = rng.choice(pcs)
+        hist = pk_create_ops(rng.choice(['ctor', 'set_header', 'props']), p, c)
+        for _r in range(rng.randint(2, 4)):
+            if rng.random() < 0.8:
+                hist.append(['read', rng.choice(readers)])
+            if rng.random() < 0.3:
+                hist.append(['data', rng.randint(0, 30)])
+            p2, c2 = (p, c) if rng.random() < 0.15 else (rng.choice([p, rng.randrange(16)]), rng.choice([c, rng.randrange(4)]))
+            hist += pk_mutate_ops(rng.choice(['set_header', 'set_header', 'port', 'channel', 'props', 'props_rev']), p, c, p2, c2)
+            # track what the ops actually set
+            for op in hist[-2:]:
+                pass
+            p, c = _pk_current(hist)
+        hist += [['read', rng.choice(readers)], ['read', rng.choice(readers)]]
+        n += 1
+        f = pk_run(hist)
+        if f and len(fails) < 8:
+            fails.append(pk_fail(hist, f))
+    return n, fails
+
+
+def _pk_current(hist):
+    cur = [0, 0]
+    for op in hist:
+        if op[0] == 'ctor':
+            cur = [(op[1] & 0xF0) >> 4, op[1] & 3]
+        elif op[0] == 'new':
+            cur = [0, 0]
+        elif op[0] == 'set_header':
+            cur = [op[1], op[2]]
+        elif op[0] == 'port':
+            cur[0] = op[1]
+        elif op[0] == 'channel':
+            cur[1] = op[1]
+    return cur
+
+
+def pk_shrink(hist):
+    """drop ops that are not needed for the failure"""
+    i = 1
+    while i < len(hist):
+        cand = hist[:i] + hist[i + 1:]
+        if cand and cand[-1][0] == 'read' and pk_run(cand):
+            hist = cand
+        else:
+            i += 1
+    return hist
+
+
 # ====================================================================================== case generation
 SPECIAL_F = [0.0, -0.0, 1.0, -1.0, 0.5, 0.1, 0.001, 0.009, 1.001, -0.009, 32.767, 32.768, -32.768, -32.769, 32.7675,
              TWO_PI, -TWO_PI, math.nextafter(TWO_PI, 10), math.nextafter(-TWO_PI, -10), 7.0, -7.0, 1e-3, 123.456,
@@ -1283,6 +1434,40 @@ def tie(ctx):
         if len(dis) < 12:
             dis.append({'what': 'negotiated protocol version: Version.vrun and PlatformService differ', 'model': mv,
                         'impl': vh_exp[bi], 'packets': vh_terms[bi][:600]})
+    # ---- one CRTPPacket re-addressed: Header.mrun vs the real object (header attribute, port, channel after every op)
+    from cflib.crtp.crtpstack import CRTPPacket as _PK
+    mh_terms, mh_exp = [], []
+    for _ in range(ctx.scale(200, 2000)):
+        h0 = ctx.rng.randrange(256)
+        pk = _PK(h0)
+        ops, trace = [], []
+        for _k in range(ctx.rng.randint(1, 7)):
+            r = ctx.rng.random()
+            pv, cv = ctx.rng.choice([ctx.rng.randrange(16), ctx.rng.randrange(64)]), ctx.rng.choice([ctx.rng.randrange(4), ctx.rng.randrange(16)])
+            if r < 0.3:
+                pk.set_header(pv, cv)
+                ops.append('MSetHeader %d %d' % (pv, cv))
+            elif r < 0.5:
+                pk.port = pv
+                ops.append('MPort %d' % pv)
+            elif r < 0.7:
+                pk.channel = cv
+                ops.append('MChan %d' % cv)
+            elif r < 0.85:
+                pk.get_header()
+                ops.append('MGetHeader')
+            else:
+                pk.data = b'ab'
+                ops.append('MData')
+            trace += [pk.header, pk.port, pk.channel]
+        mh_terms.append('concat (map (fun k => let s := mrun (firstn k [%s]) (construct %d) in [p_header s; p_port s; p_chan s]) '
+                        '(seq 1 %d))' % ('; '.join(ops), h0, len(ops)))
+        mh_exp.append(trace)
+    for bi, mv in coqrun.compare_blocks(HEADER + 'From CF Require Import C08.Header.\n', mh_terms, mh_exp, tag='c08m', shard=60):
+        nd += 1
+        if len(dis) < 12:
+            dis.append({'what': 'CRTPPacket mutation history: Header.mrun and the real object differ', 'model': mv,
+                        'impl': mh_exp[bi], 'ops': mh_terms[bi][:500]})
     # ---- header byte: ports 0..63 x channels 0..15 through set_header and through the property setters
     from cflib.crtp.crtpstack import CRTPPacket
     hdr_terms, hdr_exp = [], []
@@ -1406,6 +1591,13 @@ def oracle(ctx, deep=False):
             if not ok:
                 fails.append({'class': 'header_not_lossless', 'case': {'cmd': 'header', 'port': port, 'channel': chan},
                               'expected': (port << 4) | 12 | chan, 'observed': pk.header})
+    # ---- one packet object re-addressed: header must follow the current port and channel after every mutation
+    n_pk, pk_fails = pk_oracle(rng, ctx.scale(1500, 15000))
+    n += n_pk
+    if pk_fails:
+        f = min(pk_fails, key=lambda x: len(x['case']['pk_history']))
+        hist = pk_shrink(f['case']['pk_history'])
+        fails.append(pk_fail(hist, pk_run(hist)))
     # de-duplicate by class, keep the smallest witness
     best = {}
 
@@ -1446,6 +1638,9 @@ def oracle(ctx, deep=False):
 
 def replay(payload, ctx):
     c = payload['case']
+    if c.get('pk_history'):
+        f = pk_run(c['pk_history'])
+        return pk_fail(c['pk_history'], f) if f else None
     if c.get('cmd') == 'header':
         fs = [f for f in oracle(ctx)['failures'] if f['class'] == 'header_not_lossless']
         return fs[0] if fs else None
